@@ -34,26 +34,26 @@ type c18Op struct {
 }
 
 type c18Scenario struct {
-	DenyPhase   int     `json:"deny_phase"`
-	DenyStatus  int     `json:"deny_status"`
-	ReqAccess   bool    `json:"req_access"`
-	ReqLimit    int     `json:"req_limit"`
-	ReqMem      int     `json:"req_mem"`
-	ReqReject   bool    `json:"req_reject"`
-	RespAccess  bool    `json:"resp_access"`
-	RespLimit   int     `json:"resp_limit"`
-	RespReject  bool    `json:"resp_reject"`
-	URI         string  `json:"uri"`
-	Body        string  `json:"body"`
-	KnownLen    bool    `json:"known_len"`
-	Chunks      []int   `json:"chunks"`
-	ClientFail  int     `json:"client_fail_at"`
-	Handler     []c18Op `json:"handler"`
-	Flusher     bool    `json:"downstream_flusher"`
-	ReaderFrom  bool    `json:"downstream_readerfrom"`
-	DownFail    int     `json:"downstream_fail_at"`
-	EngineOff   bool    `json:"engine_off,omitempty"`
-	DetectOnly  bool    `json:"detection_only,omitempty"`
+	DenyPhase  int     `json:"deny_phase"`
+	DenyStatus int     `json:"deny_status"`
+	ReqAccess  bool    `json:"req_access"`
+	ReqLimit   int     `json:"req_limit"`
+	ReqMem     int     `json:"req_mem"`
+	ReqReject  bool    `json:"req_reject"`
+	RespAccess bool    `json:"resp_access"`
+	RespLimit  int     `json:"resp_limit"`
+	RespReject bool    `json:"resp_reject"`
+	URI        string  `json:"uri"`
+	Body       string  `json:"body"`
+	KnownLen   bool    `json:"known_len"`
+	Chunks     []int   `json:"chunks"`
+	ClientFail int     `json:"client_fail_at"`
+	Handler    []c18Op `json:"handler"`
+	Flusher    bool    `json:"downstream_flusher"`
+	ReaderFrom bool    `json:"downstream_readerfrom"`
+	DownFail   int     `json:"downstream_fail_at"`
+	EngineOff  bool    `json:"engine_off,omitempty"`
+	DetectOnly bool    `json:"detection_only,omitempty"`
 	// ModeByCtl: the configured engine is On and a phase-1 rule switches this
 	// transaction to the mode above by ctl:ruleEngine (the writer is wrapped and
 	// the configured Reject actions stay in place)
@@ -291,8 +291,10 @@ func (d c18DownR) ReadFrom(r io.Reader) (int64, error) {
 
 type c18DownFR struct{ *c18Down }
 
-func (d c18DownFR) Flush()                               { d.flush() }
-func (d c18DownFR) ReadFrom(r io.Reader) (int64, error) { return io.Copy(struct{ io.Writer }{d.c18Down}, r) }
+func (d c18DownFR) Flush() { d.flush() }
+func (d c18DownFR) ReadFrom(r io.Reader) (int64, error) {
+	return io.Copy(struct{ io.Writer }{d.c18Down}, r)
+}
 
 func (sc *c18Scenario) newDown() (*c18Down, http.ResponseWriter) {
 	d := &c18Down{hdr: http.Header{}, failAt: sc.DownFail}
